@@ -11,6 +11,12 @@
           arccos(u·v) ∈ [0, π]; hence Cartesian trees rank elements exactly like the great-circle
           metric.  Units: deg↔rad round trip, reported-degree radius test ⇔ radian test on the
           tree, planar (lat, lon) distance is homogeneous (degrees in ⇒ degrees out).
+  Part D (any linearly ordered field): ties and near-ties — an index list passes the exact
+          specification IFF it is a valid k-nearest answer under the ties present (same distance at
+          every position as brute force: knn_ties_profile, knn_spec_of_profile); an index list that
+          passes the specification up to a tolerance eps has the brute-force distance profile up to
+          eps at every position (knn_tol_profile) — this is the criterion the driver applies to rows
+          with near-ties, which are therefore JUDGED, not dropped; radius_tol_sandwich likewise.
   Part C: the tree cache of `get_ball_tree` / `get_kd_tree` — for the repaired comparison the
           wrapper handed back reflects the request after ANY history; the code as it stands
           fails on a two-request history; the as-is spherical k-d tree radius is in the wrong unit.
@@ -22,6 +28,7 @@ import Mathlib.Tactic.Linarith
 import Mathlib.Tactic.FieldSimp
 import Mathlib.Tactic.LinearCombination
 import Mathlib.Tactic.NormNum
+import Mathlib.Algebra.Order.Field.Basic
 import UxVerif.Lemmas.Knn
 
 namespace UxVerif.C11
@@ -857,5 +864,265 @@ example : reflects ⟨10, 7, 15⟩ ⟨.kd, .faces, .spherical, .l2, false⟩
     (getTree ⟨10, 7, 15⟩ .asIs (runReqs ⟨10, 7, 15⟩ .asIs Cache.empty
       [⟨.kd, .nodes, .cartesian, .l2, false⟩]).1 ⟨.kd, .faces, .spherical, .l2, false⟩).2 = false := by
   decide
+
+/-! ## Part D — ties and near-ties: every accepted answer is a valid k-nearest answer -/
+
+section Tol
+variable {K : Type} [Field K] [LinearOrder K] [IsStrictOrderedRing K]
+
+/-- `≤` of a linearly ordered field as the Boolean comparison of the model -/
+def leK (a b : K) : Bool := decide (a ≤ b)
+omit [Field K] [IsStrictOrderedRing K] in
+theorem leK_total : Total (leK (K := K)) := by
+  intro a b; simp only [leK, decide_eq_true_eq]; exact le_total a b
+omit [Field K] [IsStrictOrderedRing K] in
+theorem leK_trans : Trans (leK (K := K)) := by
+  intro a b c; simp only [leK, decide_eq_true_eq]; exact le_trans
+
+omit [IsStrictOrderedRing K] in
+theorem leO_leTol_iff (eps a b : K) (x y : Option K) (hx : x = some a) (hy : y = some b) :
+    leO (leTol leK eps) x y = true ↔ a ≤ b + eps := by
+  subst hx; subst hy; simp [leO, leTol, leK]
+
+/-- **near-ties: the accepted answer has the brute-force distance profile, up to `eps`.**
+    If an index list passes the k-nearest specification up to the tolerance `eps ≥ 0` (nearest
+    first and minimal up to `eps` — this is what the driver evaluates on a row with near-ties),
+    then at EVERY position `p` the distance of the returned element differs from the `p`-th
+    smallest distance (the brute-force answer) by at most `eps`. -/
+theorem knn_tol_profile (D : List K) (k : Nat) (out : List Nat) (eps : K) (heps : 0 ≤ eps)
+    (h : KnnSpec (leTol leK eps) D k out) (p : Nat) (hp : p < out.length) :
+    ∃ a si, D[out[p]]? = some a ∧ (bruteKnn leK D k)[p]? = some si ∧
+      a ≤ si.1 + eps ∧ si.1 ≤ a + eps := by
+  have hlen := h.len
+  have hpk : p < k := by omega
+  have hpn : p < D.length := by omega
+  have hop : out[p] < D.length := h.range _ (List.getElem_mem hp)
+  -- the first p+1 entries of the sorted list
+  have hPlen : (bruteKnn leK D (p + 1)).length = p + 1 := by rw [knn_length]; omega
+  have hpP : p < (bruteKnn leK D (p + 1)).length := by omega
+  let si := (bruteKnn leK D (p + 1))[p]
+  have hsiP : si ∈ bruteKnn leK D (p + 1) := List.getElem_mem hpP
+  have hsiD : D[si.2]? = some si.1 := knn_mem leK D (p + 1) si hsiP
+  have hbk : (bruteKnn leK D k)[p]? = some si := by
+    have h1 : (bruteKnn leK D k)[p]? = (sortBy leK D.zipIdx)[p]? := by
+      unfold bruteKnn; exact List.getElem?_take_of_lt hpk
+    have h2 : (bruteKnn leK D (p + 1))[p]? = (sortBy leK D.zipIdx)[p]? := by
+      unfold bruteKnn; exact List.getElem?_take_of_lt (Nat.lt_succ_self p)
+    rw [h1, ← h2]; exact List.getElem?_eq_getElem hpP
+  -- (iii) every entry of P is at most s
+  have hle_s : ∀ x ∈ bruteKnn leK D (p + 1), x.1 ≤ si.1 := by
+    intro x hx
+    obtain ⟨q, hq, rfl⟩ := List.mem_iff_getElem.mp hx
+    have hs := List.pairwise_iff_getElem.mp (knn_sorted leK_total leK_trans D (p + 1))
+    by_cases hqp : q < p
+    · have := hs q p hq hpP hqp
+      simpa [leK] using this
+    · have : q = p := by omega
+      subst this; exact le_refl _
+  -- distances of out[p]
+  refine ⟨D[out[p]], si, List.getElem?_eq_getElem hop, hbk, ?_, ?_⟩
+  · -- upper bound: some index of P is not among out[0..p)
+    have hnd : ((bruteKnn leK D (p + 1)).map Prod.snd).Nodup := knn_nodup leK D (p + 1)
+    obtain ⟨x, hxP, hxQ⟩ : ∃ x, x ∈ (bruteKnn leK D (p + 1)).map Prod.snd ∧ x ∉ out.take p := by
+      by_contra hcon
+      have hsub : (bruteKnn leK D (p + 1)).map Prod.snd ⊆ out.take p := by
+        intro x hx
+        by_contra hx'
+        exact hcon ⟨x, hx, hx'⟩
+      have := (List.subperm_of_subset hnd hsub).length_le
+      rw [List.length_map, hPlen, List.length_take] at this
+      omega
+    obtain ⟨xd, hxdP, rfl⟩ := List.mem_map.mp hxP
+    have hxD : D[xd.2]? = some xd.1 := knn_mem leK D (p + 1) xd hxdP
+    have hxs : xd.1 ≤ si.1 := hle_s xd hxdP
+    have hxn : xd.2 < D.length := (List.getElem?_eq_some_iff.mp hxD).1
+    have key : D[out[p]] ≤ xd.1 + eps := by
+      by_cases hxo : xd.2 ∈ out
+      · obtain ⟨q, hq, hqx⟩ := List.mem_iff_getElem.mp hxo
+        have hqp : ¬ q < p := by
+          intro hlt
+          exact hxQ (List.mem_take_iff_getElem.mpr ⟨q, by omega, hqx⟩)
+        by_cases hqe : q = p
+        · subst hqe
+          have : D[out[q]]? = some xd.1 := by rw [hqx]; exact hxD
+          rw [List.getElem?_eq_getElem hop] at this
+          have e := Option.some.inj this
+          linarith
+        · have hs := List.pairwise_iff_getElem.mp h.sorted p q hp hq (by omega)
+          rw [hqx] at hs
+          exact (leO_leTol_iff eps _ _ _ _ (List.getElem?_eq_getElem hop) hxD).mp hs
+      · have hm := h.minimal _ (List.getElem_mem hp) xd.2 hxn hxo
+        exact (leO_leTol_iff eps _ _ _ _ (List.getElem?_eq_getElem hop) hxD).mp hm
+    linarith
+  · -- lower bound: some index among out[0..p] is at least as far as s
+    have hBnd : (out.take (p + 1)).Nodup := List.Nodup.sublist (List.take_sublist _ _) h.nodup
+    have hBlen : (out.take (p + 1)).length = p + 1 := by rw [List.length_take]; omega
+    obtain ⟨x, hxB, d, hxD, hsd⟩ : ∃ x, x ∈ out.take (p + 1) ∧ ∃ d, D[x]? = some d ∧ si.1 ≤ d := by
+      by_cases hsub : out.take (p + 1) ⊆ (bruteKnn leK D (p + 1)).map Prod.snd
+      · have hperm := (List.subperm_of_subset hBnd hsub).perm_of_length_le
+          (by rw [List.length_map, hPlen, hBlen])
+        have : si.2 ∈ out.take (p + 1) := hperm.mem_iff.mpr (List.mem_map.mpr ⟨si, hsiP, rfl⟩)
+        exact ⟨si.2, this, si.1, hsiD, le_refl _⟩
+      · obtain ⟨x, hxB, hxP⟩ : ∃ x, x ∈ out.take (p + 1) ∧ x ∉ (bruteKnn leK D (p + 1)).map Prod.snd := by
+          by_contra hcon
+          apply hsub
+          intro x hx
+          by_contra hx'
+          exact hcon ⟨x, hx, hx'⟩
+        have hxo : x ∈ out := List.mem_of_mem_take hxB
+        have hxn : x < D.length := h.range x hxo
+        have hmin := knn_minimal leK_total leK_trans D (p + 1) si hsiP x D[x]
+          (List.getElem?_eq_getElem hxn) hxP
+        exact ⟨x, hxB, D[x], List.getElem?_eq_getElem hxn, by simpa [leK] using hmin⟩
+    obtain ⟨q, hq, hqx⟩ := List.mem_take_iff_getElem.mp hxB
+    have hq' : q < out.length := by omega
+    have key : d ≤ D[out[p]] + eps := by
+      by_cases hqe : q = p
+      · subst hqe
+        have : D[out[q]]? = some d := by rw [hqx]; exact hxD
+        rw [List.getElem?_eq_getElem hop] at this
+        cases this
+        linarith
+      · have hs := List.pairwise_iff_getElem.mp h.sorted q p hq' hp (by omega)
+        rw [hqx] at hs
+        exact (leO_leTol_iff eps _ _ _ _ hxD (List.getElem?_eq_getElem hop)).mp hs
+    linarith
+
+omit [IsStrictOrderedRing K] in
+theorem leTol_zero : leTol (leK (K := K)) 0 = leK := by
+  funext a b; simp [leTol]
+
+/-- **exact ties: every accepted answer is a valid k-nearest answer.**  Whatever ties the
+    distance list has, an index list that passes the (exact) specification returns, position by
+    position, exactly the distances of the brute-force answer — it differs from brute force only
+    in WHICH of several equidistant elements it names. -/
+theorem knn_ties_profile (D : List K) (k : Nat) (out : List Nat) (h : KnnSpec leK D k out)
+    (p : Nat) (hp : p < out.length) :
+    ∃ si, (bruteKnn leK D k)[p]? = some si ∧ D[out[p]]? = some si.1 := by
+  have h0 : KnnSpec (leTol leK (0 : K)) D k out := by rw [leTol_zero]; exact h
+  obtain ⟨a, si, ha, hs, h1, h2⟩ := knn_tol_profile D k out 0 (le_refl _) h0 p hp
+  refine ⟨si, hs, ?_⟩
+  rw [ha]; congr 1; linarith [le_antisymm (by linarith : a ≤ si.1) (by linarith : si.1 ≤ a)]
+
+omit [Field K] [IsStrictOrderedRing K] in
+/-- **and conversely every valid tie-breaking is accepted**: a list of distinct valid indices
+    whose distances are, position by position, those of the brute-force answer passes the
+    specification — so `KnnSpec` accepts EXACTLY the valid k-nearest answers, whatever the ties. -/
+theorem knn_spec_of_profile (D : List K) (k : Nat) (out : List Nat) (hnd : out.Nodup)
+    (hr : ∀ i ∈ out, i < D.length)
+    (hprof : out.map (fun i => D[i]?) = (bruteKnn leK D k).map (fun q => some q.1)) :
+    KnnSpec leK D k out := by
+  have hlen : out.length = (bruteKnn leK D k).length := by
+    have := congrArg List.length hprof; simpa using this
+  have hget : ∀ p (hp : p < out.length) (hp' : p < (bruteKnn leK D k).length),
+      D[out[p]]? = some ((bruteKnn leK D k)[p]).1 := by
+    intro p hp hp'
+    have := congrArg (fun l => l[p]?) hprof
+    simpa [List.getElem?_map, List.getElem?_eq_getElem hp, List.getElem?_eq_getElem hp'] using this
+  have hsorted := List.pairwise_iff_getElem.mp (knn_sorted leK_total leK_trans D k)
+  refine ⟨by rw [hlen, knn_length], hr, hnd, ?_, ?_⟩
+  · rw [List.pairwise_iff_getElem]
+    intro i j hi hj hij
+    rw [hget i hi (by omega), hget j hj (by omega)]
+    exact hsorted i j (by omega) (by omega) hij
+  · intro i hi j hj hjo
+    obtain ⟨pi, hpi, rfl⟩ := List.mem_iff_getElem.mp hi
+    -- split all indices into `out` and the rest, and the sorted list into its first k and the rest
+    let f : Nat → Option K := fun i => D[i]?
+    let C := (List.range D.length).filter (fun x => !(out.contains x))
+    have hsplit : (out ++ C).Perm (List.range D.length) := by
+      have h1 : ((List.range D.length).filter (fun x => out.contains x)).Perm out := by
+        apply (List.perm_ext_iff_of_nodup (List.Nodup.filter _ List.nodup_range) hnd).mpr
+        intro a
+        simp only [List.mem_filter, List.mem_range, List.contains_iff_mem]
+        exact ⟨fun h => h.2, fun h => ⟨hr a h, h⟩⟩
+      exact (List.Perm.append_right C h1.symm).trans (List.filter_append_perm _ _)
+    have hD : (List.range D.length).map f = D.map some := by
+      apply List.ext_getElem?
+      intro n
+      simp only [List.getElem?_map, f]
+      by_cases hn : n < D.length
+      · simp [hn]
+      · simp [hn]
+    have hfull : ((sortBy leK D.zipIdx).map (fun q => some q.1)).Perm (D.map some) := by
+      have := (sortBy_perm leK D.zipIdx).map (fun q : K × Nat => some q.1)
+      refine this.trans (List.Perm.of_eq ?_)
+      apply List.ext_getElem?
+      intro n
+      simp [List.getElem?_map, List.getElem?_zipIdx]
+      cases D[n]? <;> rfl
+    have hperm : (out.map f ++ C.map f).Perm
+        ((bruteKnn leK D k).map (fun q => some q.1)
+          ++ ((sortBy leK D.zipIdx).drop k).map (fun q => some q.1)) := by
+      rw [← List.map_append, ← List.map_append]
+      unfold bruteKnn
+      rw [List.take_append_drop]
+      exact ((hsplit.map f).trans (List.Perm.of_eq hD)).trans hfull.symm
+    rw [show out.map f = (bruteKnn leK D k).map (fun q => some q.1) from hprof] at hperm
+    have hC := (List.perm_append_left_iff _).mp hperm
+    have hjC : j ∈ C := by
+      simp only [C, List.mem_filter, List.mem_range, Bool.not_eq_eq_eq_not, Bool.not_true]
+      exact ⟨hj, by simpa [List.contains_iff_mem] using hjo⟩
+    have : f j ∈ ((sortBy leK D.zipIdx).drop k).map (fun q => some q.1) :=
+      hC.mem_iff.mp (List.mem_map.mpr ⟨j, hjC, rfl⟩)
+    obtain ⟨y, hy, hyj⟩ := List.mem_map.mp this
+    have hcross : ∀ a ∈ (sortBy leK D.zipIdx).take k, ∀ b ∈ (sortBy leK D.zipIdx).drop k,
+        leK a.1 b.1 = true := by
+      have hs := sortBy_sorted leK_total leK_trans D.zipIdx
+      unfold SortedK at hs
+      rw [← List.take_append_drop k (sortBy leK D.zipIdx)] at hs
+      exact (List.pairwise_append.mp hs).2.2
+    have hpk : pi < (bruteKnn leK D k).length := by omega
+    rw [hget pi hpi hpk, show D[j]? = some y.1 from hyj.symm]
+    exact hcross _ (List.getElem_mem hpk) y hy
+
+/-- the tolerant radius Boolean means: valid distinct indices, everything returned is within
+    `r + eps`, everything within `r - eps` is returned -/
+theorem radius_tol_sandwich (D : List K) (r eps : K) (out : List Nat)
+    (h : radiusSpecTolB leK eps D r out = true) :
+    (∀ j ∈ out, j ∈ (bruteRadius leK D (r + eps)).map Prod.snd) ∧
+    (∀ j ∈ (bruteRadius leK D (r - eps)).map Prod.snd, j ∈ out) ∧ out.Nodup := by
+  unfold radiusSpecTolB at h
+  simp only [Bool.and_eq_true, List.all_eq_true, decide_eq_true_eq, List.mem_range,
+    Bool.or_eq_true, List.contains_iff_mem, Bool.not_eq_eq_eq_not, Bool.not_true] at h
+  obtain ⟨⟨⟨h1, h2⟩, h3⟩, h4⟩ := h
+  refine ⟨?_, ?_, h2⟩
+  · intro j hj
+    have hjn := h1 j hj
+    have hd : D[j]? = some D[j] := List.getElem?_eq_getElem hjn
+    have := h3 j hj
+    rw [hd] at this
+    exact List.mem_map.mpr ⟨(D[j], j), (radius_iff leK D _ _).mpr ⟨hd, this⟩, rfl⟩
+  · intro j hj
+    obtain ⟨q, hq, rfl⟩ := List.mem_map.mp hj
+    obtain ⟨hd, hle⟩ := (radius_iff leK D _ q).mp hq
+    have hjn : q.2 < D.length := (List.getElem?_eq_some_iff.mp hd).1
+    rcases h4 q.2 hjn with h | h
+    · exact h
+    · exfalso
+      rw [hd] at h
+      simp only [Option.map_some, leO, leK, decide_eq_false_iff_not, not_le] at h
+      simp only [leK, decide_eq_true_eq] at hle
+      linarith
+
+end Tol
+
+/-! non-vacuity: ties are accepted in either order; a near-tie passes the tolerant spec but not
+    the exact one (Booleans at `Int`; the hypothesis of `knn_tol_profile` at ℚ) -/
+example : knnSpecB leI [5, 1, 4, 1, 9] 3 [3, 1, 2] = true := by decide
+example : knnSpecB (leTol leI 10) [500, 100, 401, 400, 900] 2 [1, 2] = true := by decide
+example : knnSpecB leI [500, 100, 401, 400, 900] 2 [1, 2] = false := by decide
+example : knnSpecB (leTol leI 10) [500, 100, 401, 400, 900] 2 [1, 0] = false := by decide
+example : radiusSpecTolB leI 10 [500, 100, 401, 400, 900] 400 [1, 3] = true := by decide
+example : radiusSpecTolB leI 10 [500, 100, 401, 400, 900] 400 [1, 2, 3] = true := by decide
+example : radiusSpecTolB leI 10 [500, 100, 401, 400, 900] 400 [1] = true := by decide
+example : radiusSpecTolB leI 10 [500, 100, 401, 400, 900] 400 [3] = false := by decide
+example : radiusSpecTolB leI 10 [500, 100, 401, 400, 900] 400 [1, 0] = false := by decide
+example : [3, 1, 2].map (fun i => ([5, 1, 4, 1, 9] : List ℚ)[i]?)
+    = (bruteKnn leK ([5, 1, 4, 1, 9] : List ℚ) 3).map (fun q => some q.1) := by decide
+example : KnnSpec (leTol (leK (K := ℚ)) 10) [500, 100, 401, 400, 900] 2 [1, 2] := by
+  rw [← knnSpecB_iff]
+  simp [knnSpecB, sortedIdx, pairwiseB, leO, leTol, leK, List.range, List.range.loop]
+  norm_num
 
 end UxVerif.C11
